@@ -208,14 +208,14 @@ pub fn run_schedule(notes: usize, acts: &[Act]) -> Outcome2 {
         g.changes += 1;
         c.cv.notify_all();
     }
-    let drained = wait_for(|g| g.events.iter().filter(|e| e.starts_with("finishing:")).count() >= sent_reqs, Duration::from_secs(60));
+    let drained = wait_for(|g| g.events.iter().filter(|e| e.starts_with("finishing:")).count() >= sent_reqs, Duration::from_secs(20));
     // read the final text of every note, waiting for the answers themselves
     let mut inbox: Vec<Message> = vec![];
     let mut finals = vec![];
     for n in 0..notes {
         let id = 900_000 + n as u32;
         send(&Msg::Req { id, note: n, outcome: Outcome::Ok });
-        let deadline = Instant::now() + Duration::from_secs(if drained { 60 } else { 5 });
+        let deadline = Instant::now() + Duration::from_secs(if drained { 30 } else { 3 });
         loop {
             match from_server.recv_timeout(deadline.saturating_duration_since(Instant::now())) {
                 Ok(m) => {
